@@ -246,6 +246,11 @@ class WSStream:
                 )
                 await self.app_put({"type": "websocket.connect"})
         elif isinstance(event, (Body, Data)) and not self.handshake.accepted:
+            if self.state in {ASGIWebsocketState.RESPONSE, ASGIWebsocketState.HTTPCLOSED}:
+                # The app is rejecting (or has rejected) the handshake
+                # with a response of its own, a second response can't
+                # be sent and nothing more is read from the client.
+                return
             # Closed first, the app may try to accept whilst this is sent
             self.closed = True
             await self._send_error_response(400)
